@@ -44,6 +44,12 @@ fn commands() -> Vec<(&'static str, &'static str, &'static str, u64)> {
         ("arbiter-register", "arbiter", "a", 0),
         ("conflicting-write", "set-safe conf 0 other{n}", "a", 1),
         ("resolve", "resolve {opid} a conf 1 decided{n}", "a", 2),
+        // the same write kinds on a newer-strategy database (conflicts are settled by the node itself)
+        ("newer-set", "set nk v{n}", "nw", 1),
+        ("newer-set-safe-stale", "set-safe nk 0 stale{n}", "nw", 1),
+        ("newer-set-safe-ahead", "set-safe nk 40 ahead{n}", "nw", 1),
+        ("newer-increment", "increment ncounter 2", "nw", 1),
+        ("newer-remove", "remove nk2", "nw", 1),
         ("unknown", "frobnicate {n}", "d", 0),
     ]
 }
@@ -78,7 +84,7 @@ pub fn run_cluster(n: usize, seed0: u64, order: &[usize], failover: bool, v: &Ve
     let cmds = commands();
     // set-up: databases, base keys, an arbiter on the primary and one pending conflict
     c.open_session("adm", 0);
-    for l in ["auth admin pwd", "create-db d tok", "create-db a tok arbiter", "use-db d tok", "set shared 1", "set shared 2", "set shared2 x", "set counter 5"] {
+    for l in ["auth admin pwd", "create-db d tok", "create-db a tok arbiter", "create-db nw tok newer", "use-db nw tok", "set nk 1", "set nk 2", "set nk 3", "set nk2 x", "set ncounter 1", "use-db d tok", "set shared 1", "set shared 2", "set shared2 x", "set counter 5"] {
         c.send("adm", l);
     }
     let _ = c.run_until_quiet();
